@@ -1,4 +1,4 @@
-\* thorough tier: larger case space (both recipient accounts active, a third wallet's address requested,
+\* thorough tier: larger case space (both recipient accounts active,
 \* owner and foreign finalize, sends that were never locked); larger stratified sample for replay
 CONSTANTS
   Dev = {"LateLockTrustsReply", "StrippedUnnoticed", "LockTrustsSlate"}
@@ -9,7 +9,7 @@ CONSTANTS
   ActIs = {"a0", "a1"}
   ActFs = {"a0", "a1"}
   LateLocks = {"late", "S1", "S2", "none"}
-  Reqs = {"w2:a0", "w2:a1", "w3:a0"}
+  Reqs = {"w2:a0", "w2:a1"}
   Dests = {"", "a1"}
   ActRs = {"a0", "a1"}
   Tams = {"none", "strip", "nosig", "junk", "otherkey", "otherkey_raddr", "amount", "exc_spart", "exc_rpart", "exc_cb", "sender", "raddr", "saddr", "saddr_sig"}
